@@ -110,6 +110,13 @@ thread_local! {
 }
 pub const UNPOLLED: &str = "future dropped without a poll";
 
+thread_local! {
+    /// (k, f): before poll number k of the next driven future, `f` opens a scope on this thread;
+    /// what it returns is kept until the future has completed (contexts 5 and 6: the call was made
+    /// outside any scope, the polls - all of them, or all but the first - happen inside one)
+    pub static SCOPE_AT_POLL: RefCell<Option<(usize, Box<dyn FnOnce() -> Box<dyn std::any::Any>>)>> = const { RefCell::new(None) };
+}
+
 /// drive a future to completion with a no-op waker, counting polls
 pub fn drive<F: Future>(fut: F, polls: &mut usize) -> F::Output {
     if DROP_UNPOLLED.with(|d| d.get()) {
@@ -117,10 +124,17 @@ pub fn drive<F: Future>(fut: F, polls: &mut usize) -> F::Output {
         std::panic::resume_unwind(Box::new(UNPOLLED.to_string()));
     }
     let mut fut = Box::pin(fut);
+    let mut _held: Option<Box<dyn std::any::Any>> = None;
     let w = noop_waker();
     let mut cx = Context::from_waker(&w);
     loop {
         *polls += 1;
+        let due = SCOPE_AT_POLL.with(|s| s.borrow().as_ref().map_or(false, |(k, _)| *k == *polls));
+        if due {
+            if let Some((_, f)) = SCOPE_AT_POLL.with(|s| s.borrow_mut().take()) {
+                _held = Some(f());
+            }
+        }
         log(format!("poll#{}", *polls));
         if let Poll::Ready(v) = fut.as_mut().poll(&mut cx) {
             return v;
